@@ -164,7 +164,8 @@ def run(tier: str, driver_ok: bool) -> Result:
         "(tag unset/right/wrong, DS unset/right-upper/right-lower/wrong, size/exponent/algorithm claims) x 14 token-content variants, for RSA "
         "and ECDSA keys; quick samples the identity claims, thorough takes the full product; multi-bundle stream: 2..4 bundles x target bundle x 7 role "
         "patterns of the windowed key (all slots / only j / up to j / from j / revoked at j / every slot but j ...) x windows +-1 s around bundle j, a second "
-        "always-valid signer; non-trivial = distinct case description"
+        "always-valid signer; unreadable stream: every attribute read of a fault-free run x {error return, nothing answered} on tokens with the key in one place / "
+        "a copy or another key under the label in a later slot or module; non-trivial = distinct case description"
     )
     r = lib.rng("C04")
     runs = []
@@ -283,6 +284,7 @@ def run(tier: str, driver_ok: bool) -> Result:
                 if len(res.samples) < 3 and (variant, df) in (("right", 0), ("other_key_same_label", 0), ("dup_private", 0)):
                     res.sample({"case": case, "impl": impl, "token_ops": len(x["log"])})
     multi_bundle_stream(res, runs, r, tier)
+    unreadable_stream(res, runs, r, tier)
     if driver_ok:
         S.compare_with_model(res, runs, "sign_bundles")
     return res
@@ -357,6 +359,68 @@ def multi_bundle_stream(res: Result, runs: list[dict[str, Any]], r: Any, tier: s
             res.violation("key outside its validity window: expected a key-usage policy violation", case, key="multi-bundle:window-class", impl=impl if "ok" not in impl else "ok", bad_slots=bad_slots)
         if not bad_slots and "ok" not in impl:
             res.violation("every stated condition holds but signing did not complete", case, key=f"multi-bundle:incomplete:{pat}", impl=impl)
+
+
+def stable_part(impl: dict[str, Any]) -> Any:
+    """the response without the signature octets (ECDSA signatures are randomised)"""
+    return [{**b, "signatures": [{k: v for k, v in sg.items() if k not in ("signatureData", "signature_data", "signature")} for sg in b.get("signatures", [])]} for b in impl["ok"]]
+
+
+PUBLIC_PART = {"MODULUS", "PUBLIC_EXPONENT", "EC_POINT", "EC_PARAMS"}
+
+
+def unreadable_stream(res: Result, runs: list[dict[str, Any]], r: Any, tier: str) -> None:
+    """"A label ... whose public part cannot be read ... stops the run instead of signing with a guess": every attribute read
+    of a fault-free run is made to fail (error return) or to answer nothing (unreadable), on tokens where the key exists in
+    ONE place and on tokens where a second copy / another key under the label exists in a later slot or module.  A failed
+    read of the public part (modulus, exponent, EC point/params) must stop the run wherever else the label may be found;
+    for the other reads (class, label, id, key type) only the fault-free result may come out."""
+    algs = [(8, K.rsa_keys(2048, 65537)[0]), (13, K.ec_keys("P-256")[2])]
+    if tier == "thorough":
+        algs += [(10, K.rsa_keys(1024, 65539)[1]), (14, K.ec_keys("P-384")[2])]
+    layouts = ["single", "copy-in-second-module", "copy-in-second-slot", "other-key-in-second-module"]
+    for alg, tk in algs:
+        for layout in layouts:
+            sc = base_scenario(alg, tk)
+            k = sc.ksks["ka"]
+            if layout != "single":
+                where = ("emu0", 1) if layout.endswith("second-slot") else ("emu1", 0)
+                if layout.startswith("other-key"):
+                    pool = [x for x in (K.rsa_keys(tk.bits, tk.e) if tk.kind == "rsa" else K.ec_keys(tk.curve)) if x is not tk]
+                    sc.token_edits.append(lambda w, k=k, where=where, o=pool[0]: add_pair(w, dict(k, tk=o), *where))
+                else:
+                    sc.token_edits.append(lambda w, k=k, where=where: add_pair(w, k, *where))
+            base = S.run_sign(sc, "sign_bundles")
+            if "ok" not in base["impl"]:
+                res.violation("every stated condition holds but signing did not complete", {"stream": "unreadable", "alg": alg, "layout": layout, "fault": None}, key=f"unreadable:incomplete:{layout}", impl=base["impl"])
+                continue
+            reads = []
+            last_class: dict[tuple[Any, Any], Any] = {}
+            for i, rec in enumerate(base["log"]):
+                if rec["op"] == "findObjects":
+                    last_class[(rec.get("module"), rec.get("slot"))] = dict((a, v) for a, v in rec.get("template", [])).get("CLASS")
+                elif rec["op"] == "getAttributeValue":
+                    reads.append((i, dict(rec, of_class=last_class.get((rec.get("module"), rec.get("slot"))))))
+            for pos, rec in reads:
+                for kind in ("error", "unreadable"):
+                    sc.plan = {pos: {"kind": kind}}
+                    x = S.run_sign(sc, "sign_bundles")
+                    sc.plan = {}
+                    # the public part of the PUBLIC object (class 2), or any read that ends in an error return; a private
+                    # object that answers nothing for its public attributes is ordinary token behaviour (the public object is
+                    # consulted instead) and may complete
+                    is_public_obj = rec.get("of_class") == 2
+                    public_part = bool(PUBLIC_PART & set(rec.get("attrs", []))) and (is_public_obj or kind == "error")
+                    case = {"stream": "unreadable", "alg": alg, "layout": layout, "position": pos, "attrs": rec.get("attrs"), "object_class": rec.get("of_class"), "module": rec.get("module"), "slot": rec.get("slot"), "kind": kind}
+                    x["case"] = case
+                    runs.append(x)
+                    res.count(case)
+                    res.bump(f"unreadable:{kind}:{'public-part' if public_part else 'other-attrs'}:{'stopped' if 'ok' not in x['impl'] else 'completed'}")
+                    if "ok" in x["impl"]:
+                        if public_part:
+                            res.violation("the public part of the key could not be read but the run did not stop", case, key=f"unreadable:{layout}:{kind}", impl="ok")
+                        elif stable_part(x["impl"]) != stable_part(base["impl"]):
+                            res.violation("a failed attribute read changed the response", case, key=f"unreadable-other:{layout}:{kind}")
 
 
 def replay(obj: dict[str, Any]) -> Any:
